@@ -299,3 +299,65 @@ func init() {
 		}
 	}
 }
+
+// Higher-order helpers on CONCRETE strings: the function argument is called
+// through the interpreter for every rune.
+func (m *machine) runePred(fr *frame, f value, r rune) bool {
+	res := m.call(fr, 0, f, []value{int64(r)})
+	b, ok := res.(bool)
+	if !ok {
+		panic(cut{"predicate over runes returned a symbolic result"})
+	}
+	return b
+}
+
+func init() {
+	add := func(name string, f intrinsic) {
+		if _, exists := intrinsics[name]; !exists {
+			intrinsics[name] = f
+		}
+	}
+	add("sort.SliceStable", iSortSlice)
+	conc := func(v value, what string) string {
+		s, ok := v.(string)
+		if !ok {
+			if t, ok2 := v.(*Term); ok2 && t.Op == "cs" {
+				return t.S
+			}
+			panic(cut{what + " on a symbolic string is not modelled"})
+		}
+		return s
+	}
+	add("strings.IndexFunc", func(m *machine, fr *frame, args []value) value {
+		s := conc(args[0], "strings.IndexFunc")
+		for i, r := range s {
+			if m.runePred(fr, args[1], r) {
+				return int64(i)
+			}
+		}
+		return int64(-1)
+	})
+	add("strings.TrimFunc", func(m *machine, fr *frame, args []value) value {
+		return strings.TrimFunc(conc(args[0], "strings.TrimFunc"), func(r rune) bool { return m.runePred(fr, args[1], r) })
+	})
+	add("strings.TrimLeftFunc", func(m *machine, fr *frame, args []value) value {
+		return strings.TrimLeftFunc(conc(args[0], "strings.TrimLeftFunc"), func(r rune) bool { return m.runePred(fr, args[1], r) })
+	})
+	add("strings.TrimRightFunc", func(m *machine, fr *frame, args []value) value {
+		return strings.TrimRightFunc(conc(args[0], "strings.TrimRightFunc"), func(r rune) bool { return m.runePred(fr, args[1], r) })
+	})
+	add("strings.FieldsFunc", func(m *machine, fr *frame, args []value) value {
+		return strSlice(strings.FieldsFunc(conc(args[0], "strings.FieldsFunc"), func(r rune) bool { return m.runePred(fr, args[1], r) }))
+	})
+	add("strings.Map", func(m *machine, fr *frame, args []value) value {
+		s := conc(args[1], "strings.Map")
+		return strings.Map(func(r rune) rune {
+			res := m.call(fr, 0, args[0], []value{int64(r)})
+			n, ok := res.(int64)
+			if !ok {
+				panic(cut{"strings.Map mapping returned a symbolic rune"})
+			}
+			return rune(n)
+		}, s)
+	})
+}
